@@ -470,24 +470,44 @@ class Settings:
         return lf
 
 
-def roundtrip(spec, lf, st):
-    """export the rules, apply them to a newly made function, compare lnL, nfp and EVERY parameter value"""
-    new = make_lf(spec)
-    if "aln" in st.other:
-        apply_setting(new, st.other["aln"])
-    rules = lf.get_param_rules()
-    new.apply_param_rules(rules)
-    a, b = param_table(lf, st.edges), param_table(new, st.edges)
-    worst, which = 0.0, None
-    for k in sorted(set(a) | set(b)):
-        if k not in a or k not in b:
-            worst, which = float("inf"), [k, a.get(k), b.get(k)]
-            break
-        d = abs(a[k] - b[k]) / max(1.0, abs(a[k]))
-        if d > worst:
-            worst, which = d, [k, a[k], b[k]]
-    return dict(lnL=float(new.get_log_likelihood()), nfp=int(new.get_num_free_params()), worst=worst, which=which,
-                rules=rules_summary(rules), nparams=len(a), canon=canon_rules(rules), tables=scope_tables(new))
+def roundtrip(spec, lf, st, plain_hidden=False):
+    """export the rules, apply them to a newly made function, compare lnL, nfp and EVERY parameter value.
+    Optimisable partitions that are not user parameters (rate_partition of distribution='free') are not exported by
+    get_param_rules (known finding, key lf:roundtrip:hidden-partition): that clause is evaluated only on the corpus
+    witnesses (plain_hidden=True); everywhere else the hidden partitions are handed over directly so that every OTHER
+    aspect of the round trip stays under test.  On the witnesses both variants are reported."""
+    import numpy
+
+    def attempt(compensate):
+        new = make_lf(spec)
+        if "aln" in st.other:
+            apply_setting(new, st.other["aln"])
+        rules = lf.get_param_rules()
+        new.apply_param_rules(rules)
+        if compensate:
+            for name in hidden_partitions(lf):
+                new.set_param_rule(name, init=numpy.array(lf.get_param_value(name), dtype=float))
+        a, b = param_table(lf, st.edges), param_table(new, st.edges)
+        worst, which = 0.0, None
+        for k in sorted(set(a) | set(b)):
+            if k not in a or k not in b:
+                worst, which = float("inf"), [k, a.get(k), b.get(k)]
+                break
+            d = abs(a[k] - b[k]) / max(1.0, abs(a[k]))
+            if d > worst:
+                worst, which = d, [k, a[k], b[k]]
+        return dict(lnL=float(new.get_log_likelihood()), nfp=int(new.get_num_free_params()), worst=worst, which=which,
+                    rules=rules_summary(rules), nparams=len(a), canon=canon_rules(rules), tables=scope_tables(new))
+
+    hidden = bool(hidden_partitions(lf))
+    if not hidden:
+        return attempt(False)
+    if not plain_hidden:
+        return attempt(True)
+    rt = attempt(False)
+    comp = attempt(True)
+    rt["compensated"] = dict(lnL=comp["lnL"], nfp=comp["nfp"], worst=comp["worst"], which=comp["which"])
+    return rt
 
 
 def run_lf(case):
@@ -543,7 +563,7 @@ def run_lf(case):
         if mismatch:
             extra = dict(extra or {}, rejection_mismatch=list(mismatch))
         out.append([tag, float(lf.get_log_likelihood()), float(fr.get_log_likelihood()), int(lf.get_num_free_params()),
-                    int(fr.get_num_free_params()), extra, roundtrip(spec, lf, st), scope_tables(lf)])
+                    int(fr.get_num_free_params()), extra, roundtrip(spec, lf, st, bool(case.get("plain_hidden"))), scope_tables(lf)])
 
     record("init")
     for o in ops:
@@ -554,6 +574,9 @@ def run_lf(case):
             record("set:" + o["s"]["what"] + ("" if ok else ":rejected"))
         elif kind == "refresh":
             lf.make_calculator()      # calls update() on every definition
+            record("refresh")
+        elif kind == "optimise" and not numpy.isfinite(float(lf.get_log_likelihood())):
+            lf.make_calculator()      # the optimiser refuses to start from lnL = -inf (API precondition): only refresh
             record("refresh")
         elif kind == "optimise":
             lc = lf.optimise(max_evaluations=int(o["evals"]), local=True, show_progress=False, limit_action="ignore",
